@@ -92,7 +92,9 @@ def dispatch (op : String) (args obs : List String) : Outcome :=
   | "CONC" =>
     (match args, obs with
      | scen :: _, b :: rest =>
+       let all := " ".intercalate (b :: rest)
        let tags := if scen == "lifecycle" || scen == "hsrace" then ["C14"] else if scen == "hsmix" then ["C08", "C14", "C04"] else ["C08"]
+       let tags := if (all.splitOn "writes-after-close").length > 1 then tags ++ ["C06"] else tags
        { corr := .ok,
          prop := if b == "bad=0" then .ok else .bad (" ; ".intercalate (tags.map fun t => s!"{t} concurrent scenario {scen}: {" ".intercalate (b :: rest)}")),
          branch := s!"conc.{scen}" }
@@ -142,6 +144,16 @@ def dispatch (op : String) (args obs : List String) : Outcome :=
                    prop := if b == "bad=0" then .ok else .bad s!"C07 concurrently built messages corrupted {b} ; C03 concurrently built messages corrupted {b}",
                    branch := s!"pkconc.{n}" }
      | _ => { corr := .bad "bad-line" })
+  | "IND" =>
+    -- constructors are functions of their arguments: what one value goes through is invisible to another
+    (match args, obs with
+     | ctor :: how :: _, [before, after, third] =>
+       { corr := if third == before then .ok else .bad s!"{ctor}: a value built later differs from one built earlier with the same arguments: {before} vs {third}",
+         prop := if after == before && third == before then .ok
+                 else .bad ((if after == before then [] else [s!"C07 {ctor}: changing one value ({how}) changed another value built by the same constructor: {before} -> {after}"]) ++
+                            (if third == before then [] else [s!"C07 {ctor}: a value built after another one was changed ({how}) inherits the change: {third}"]) |> " ; ".intercalate),
+         branch := s!"ind.{ctor}.{how}" }
+     | _, _ => { corr := .bad "bad-line" })
   | "CIDS" =>
     match opCIDS args obs with
     | some d =>
